@@ -93,7 +93,10 @@ class MathParser:
             else:
                 out = [defs.ActionToken(out[-1].pos)]
         else:
-            if self.parser.parms.math_displayed_simple:
+            # NB: if the end of the equation is missing, then we keep the
+            # normal output that contains the error mark
+            closed = end and type(end) is not defs.ParagraphToken
+            if self.parser.parms.math_displayed_simple and closed:
                 txt = self.parser.get_text_direct(out).strip()
                 out = [defs.ActionToken(start_simple),
                         defs.SpaceToken(start_simple, '  ', pos_fix=True),
